@@ -2,6 +2,7 @@ package h
 
 import (
 	"encoding/json"
+	"fmt"
 	"io"
 	"math/rand"
 )
@@ -989,6 +990,37 @@ func init() {
 			info.Events += ev
 			if len(info.Samples) < 3 {
 				info.Samples = append(info.Samples, out.SQL)
+			}
+		}
+		return info
+	}
+}
+
+// ---- WIDE: more distinct column selectors in one select list than any bounded cache holds ---------------------
+func init() {
+	TraceGen["WIDE"] = func(seed int64, n int, tier string, w io.Writer) TraceInfo {
+		g := NewGen(seed ^ 0x71de)
+		info := TraceInfo{}
+		cols := 1100 + g.R.Intn(200)
+		for i := 0; i < n; i++ {
+			rows := []any{}
+			for r := 0; r < 2; r++ {
+				f := Node{}
+				for k := 0; k < cols; k++ {
+					f[fmt.Sprintf("k%d_%d", k, seed%97)] = TInt((k*7 + r*3 + i) % 10)
+				}
+				rows = append(rows, TObj(f))
+			}
+			sel := []any{}
+			for k := 0; k < cols; k++ {
+				sel = append(sel, Item(Col(fmt.Sprintf("k%d_%d", k, seed%97)), fmt.Sprintf("v%d", k)))
+			}
+			q := With(BaseQ(), "sel", sel)
+			ev, out := RecordEngine(w, q, TObj(Node{"t": TArr(rows)}), Style{}, nil)
+			info.Queries++
+			info.Events += ev
+			if len(info.Samples) < 1 {
+				info.Samples = append(info.Samples, fmt.Sprintf("%.120s ... (%d columns)", out.SQL, cols))
 			}
 		}
 		return info
